@@ -48,6 +48,16 @@ CLAIMED = {
             'floats as reals; concrete fibre variants; Raman sub-claims about method agreement, orders 3-4, iterative co/counter solver '
             'and pump gain are outside the technique (no bounded exact assertion); Fiber.cr and interp1d stubbed in H5c',
             'DESIGN.md §2 C05'),
+    'C13': ('symx',
+            'bounded symbolic execution of the real receiver / propagate / mode-selection / verdict code with z3 (dB values through an '
+            'invertible 10**x abstraction, round(.,2) modelled exactly over the reals+ints); models replayed on the float code',
+            'update_snr counts each added OSNR exactly once and never accumulates over repeated calls (1-3 contributions, up to 3 calls, '
+            'symbolic values); on a real Transceiver-Roadm-line-Roadm-Transceiver path with an environment stub for the line, the verdict '
+            'of compute_path_with_disjunction is feasible <=> min_i(GSNR_0.1nm - penalty) >= OSNR + margin outside the +-0.005 rounding '
+            'band, for both directions when bidirectional, impairments outside the penalty table block, auto mode = first feasible mode in '
+            '(baud, bit rate) order among those fitting the spacing; penalty tables normalised at load.',
+            'floats as reals; 2-4 channels; concrete penalty tables and tx/add-drop OSNR in the verdict harness; LineStub environment stub',
+            'DESIGN.md §2 C13'),
     'C14': ('symx',
             'bounded symbolic execution of the real spectrum-assignment code on bitmaps of symbolic cells with z3 (inductive step '
             'over request histories); models replayed on the real code',
